@@ -209,7 +209,8 @@ def build(case):
         else:
             raise ValueError(where)
         if kind in ('int', 'intbox'):
-            v = int(round(v))
+            # an integer inside the harness prior's box (the declared bounds need not be integers)
+            v = min(max(int(round(v)), math.ceil(b[0])), math.floor(b[1]))
         if kind == 'sphere' and where != 'interior':
             # the poles are C12's subject (F17); stay a little inside
             v = min(max(v, b[0] + 1e-3), b[1] - 1e-3)
